@@ -153,6 +153,29 @@ def worker(args):
             fail["verdict"] = v
             raise Violation(v.msg)
 
+    # ---- exhaustive small-scope enumeration (thorough tier, properties that define enumerate_cases) -------------
+    enum_done = 0
+    enum_fail = None
+    if args.tier == "thorough" and hasattr(prop, "enumerate_cases") and not args.collect:
+        cases = prop.enumerate_cases()
+        for case in cases[args.shard::max(1, args.nshards)]:
+            enum_done += 1
+            try:
+                body(case)
+            except Violation:
+                enum_fail = True
+                break
+    out["enumerated"] = enum_done
+    if enum_fail:
+        v = fail["verdict"]
+        out.update({"status": "violation", "fail_case": fail["case"], "fail_check": v.check, "fail_msg": v.msg[:3000],
+                    "fail_bucket": v.bucket, "wall": 0.0, "stats": st.dump()})
+        tmp = os.path.join(args.workdir, "shard_%d.json.tmp" % args.shard)
+        with open(tmp, "w") as f:
+            json.dump(core.jsonable(out), f)
+        os.replace(tmp, os.path.join(args.workdir, "shard_%d.json" % args.shard))
+        return 0
+
     phases = [Phase.generate]
     if args.shrink:
         phases.append(Phase.shrink)
@@ -291,7 +314,7 @@ def parent(args):
     procs = []
     for s in range(nsh):
         cmd = [sys.executable, "-m", "vt.run", pid, tier, "--worker", "--shard", str(s), "--seed",
-               str(vseed * 1000003 + s), "--examples", str(per), "--workdir", workdir]
+               str(vseed * 1000003 + s), "--examples", str(per), "--workdir", workdir, "--nshards", str(nsh)]
         if shrink:
             cmd.append("--shrink")
         if args.collect:
@@ -313,6 +336,7 @@ def parent(args):
     merged = Stats()
     sigs = set()
     harness_errors = []
+    enumerated = 0
     for s, p, _ in procs:
         path = os.path.join(workdir, "shard_%d.json" % s)
         if not os.path.exists(path):
@@ -341,6 +365,7 @@ def parent(args):
             continue
         with open(path) as f:
             o = json.load(f)
+        enumerated += o.get("enumerated", 0)
         stt = o["stats"]
         merged.evals += stt["evals"]
         merged.nontrivial += stt["nontrivial"]
@@ -412,7 +437,9 @@ def parent(args):
             "known_finding_hits": merged.known,
             "library_exceptions": merged.libexc,
             "shards": nsh, "examples_per_shard": per,
-            "exhaustive": bool(getattr(prop, "EXHAUSTIVE", {}).get(tier, False)),
+            "exhaustive": False,
+            "small_scope_enumeration": {"cases_enumerated_completely": enumerated,
+                                        "what": getattr(prop, "ENUM_DOC", "")} if enumerated else None,
             "notes": notes + vac,
         },
         "assumptions": getattr(prop, "ASSUMPTIONS", []),
@@ -467,6 +494,7 @@ def main():
     ap.add_argument("--examples", type=int, default=0)
     ap.add_argument("--worker", action="store_true")
     ap.add_argument("--shard", type=int, default=0)
+    ap.add_argument("--nshards", type=int, default=1)
     ap.add_argument("--seed", type=int, default=1)
     ap.add_argument("--workdir")
     ap.add_argument("--shrink", action="store_true")
